@@ -22,7 +22,7 @@ def claim(pid, category, text, note, technique, design_ref):
 TB = "trusted: rustc's type checker and name resolution, the ndv-export exporter, the exact term rewriter in ndvlib/poly.py, the grading/differential tables of DESIGN.md Appendix A"
 
 claim("C01", "proof",
-      "Static proof over the reals: every closed form f0..f3 of the 24 elementary functions (as instantiated for each of the 8 types) is the function and its successive derivatives (formal differentiation of the code's own canonical form), every chain rule is the truncated Faa di Bruno formula, and every whole method (all parts, all presence patterns, all decision-tree paths) equals the formal derivatives of its real function; abs/signum/abs_sub branch on the real part. The floating-point error bound of the statement is NOT decided.",
+      "Static proof over the reals: every closed form f0..f3 of the 24 elementary functions (as instantiated for each of the 8 types) is the function and its successive derivatives (formal differentiation of the code's own canonical form), every chain rule is the truncated Faa di Bruno formula, and every whole method (all parts, all presence patterns, all decision-tree paths) equals the formal derivatives of its real function; abs/signum/abs_sub branch on the real part. The dual-with-float operator forms the closed forms apply to values of the inner number type (all 40 generated forms per type) are the operation with the float lifted to a constant. The floating-point error bound of the statement is NOT decided.",
       TB + "; identities hold over the reals, rounding and domains of definition are not analysed",
       "abstract interpretation of typed HIR to exact canonical forms + formal differentiation (no execution, no solver)",
       "DESIGN.md 5.C01")
@@ -33,7 +33,7 @@ claim("C02", "proof",
       "DESIGN.md 5.C02")
 
 claim("C07", "proof",
-      "Static proof: (L1) every operator impl and inherent method of the optional-matrix container satisfies alpha(result) == op(alpha(operands)) in every presence case; (L2) every arithmetic, chain-rule, elementary-function, power, scalar-operand and in-place operation of DualVec, Dual2Vec, HyperDualVec is discharged under all 2^k presence patterns against the same spec; (access) no code outside impl Derivative projects the presence flag. Sequences of in-place updates follow by induction (each step preserves alpha).",
+      "Static proof: (L1) every operator impl and inherent method of the optional-matrix container satisfies alpha(result) == op(alpha(operands)) in every presence case; (L2) every arithmetic, chain-rule, elementary-function, power, scalar-operand and in-place operation of DualVec, Dual2Vec, HyperDualVec is discharged under all 2^k presence patterns against the same spec; (access) no code outside impl Derivative projects the presence flag. In-place lane updates (SimdValue replace/extract/select) of the vector types and of the container respect absent == zero (rule set of C11). Sequences of in-place updates follow by induction (each step preserves alpha).",
       TB,
       "abstract interpretation with Option semantics over typed HIR + who-may-access rule on resolved field projections",
       "DESIGN.md 5.C07")
@@ -54,23 +54,23 @@ claim("C03", "proof",
       "abstract interpretation to canonical forms + interface-closure and purity rules over the typed HIR",
       "DESIGN.md 5.C03")
 claim("C04", "proof",
-      "Static proof: chain rule, product and quotient of all 8 types are discharged against ONE formal-differentiation generator; code-vs-code sibling agreement: canonical forms of a richer type mapped through the grading homomorphism coincide with those of the poorer type (10 type pairs x chain/mul/div); NDERIV = T::NDERIV + order; re()/from_inner recurse through the inner type; 28 public aliases encode width/storage correctly; one generic impl per operation form and type constructor (static and dynamic sizes share it). Numerical agreement 'to 32-bit accuracy' is NOT decided.",
+      "Static proof: chain rule, product and quotient of all 8 types are discharged against ONE formal-differentiation generator; code-vs-code sibling agreement: canonical forms of a richer type mapped through the grading homomorphism coincide with those of the poorer type (10 type pairs x chain/mul/div); NDERIV = T::NDERIV + order; re()/from_inner recurse through the inner type; 28 public aliases encode width/storage correctly; one generic impl per operation form and type constructor (static and dynamic sizes share it). Nesting: the generic bodies (closed forms, atan2, dual-with-float operator forms) are verified with the inner type abstract and T::re() an opaque projection, i.e. for a dual inner type as well as for f64. Numerical agreement 'to 32-bit accuracy' is NOT decided.",
       TB + "; Rust coherence for impl uniqueness",
       "canonical-form comparison between sibling implementations + impl/alias table rules",
       "DESIGN.md 5.C04")
 claim("C06", "proof",
-      "Sound dependency analysis (no cancellation, data + control dependence, all decision-tree paths) over 864 operation bodies: the real part of every result and every guard depends on operand real parts and scalar parameters only; representation independence of the vector types in an uninterpreted-term domain; comparison traits and predicates decide like the float predicate on the real part (checked semantically on sample values); min/max/clamp/copysign agree with the reference selection on all weak orderings and return operands wholesale; branch agreement: with guards decided at sample real parts on both sides of every switch, the real part of each of the 25 unary interface methods is the expression the plain-float instance evaluates on its own path; 58 plain-float items forward to the same-named std method. The 'few ulps' clause is NOT decided.",
+      "Sound dependency analysis (no cancellation, data + control dependence, all decision-tree paths) over 864 operation bodies: the real part of every result and every guard depends on operand real parts and scalar parameters only; representation independence of the vector types in an uninterpreted-term domain; comparison traits and predicates decide like the float predicate on the real part (checked semantically on sample values); min/max/clamp/copysign agree with the reference selection on all weak orderings and return operands wholesale; branch agreement: with guards decided at sample real parts on both sides of every switch, the real part of each of the 25 unary interface methods is the expression the plain-float instance evaluates on its own path; 58 plain-float items forward to the same-named std method. Conversions between float widths map the real part to the converted real part (rule set of C13). The 'few ulps' clause is NOT decided.",
       "trusted: rustc's type checker and name resolution, the exporter, the interpreter skeleton; assumes deterministic float operations; NaN orderings excluded",
       "abstract interpretation with a dependency-set domain over typed HIR + ordering-lattice enumeration",
       "DESIGN.md 5.C06")
 claim("C11", "other",
-      "Static rule set: 60 RealField constants map to the FloatConst constant of the same mathematical name (table from simba's f64 impl) with zero derivative parts; 156 ComplexField forwarding items evaluate to the canonical form of the generic dual operation they stand for (log with dual base, powf/powc as powd, hypot, scale/unscale, abs-like on sign arms); argument/try_sqrt/copysign/min/max/clamp match simba's f64 reference on every sign case / weak ordering and return operands wholesale; SimdValue lane operations are part-wise with the same lane index (scalar types, vector types in all presence cases, and the container). Numeric agreement of forwarded methods is C01.",
+      "Static rule set: 60 RealField constants map to the FloatConst constant of the same mathematical name (table from simba's f64 impl) with zero derivative parts; 156 ComplexField forwarding items evaluate to the canonical form of the generic dual operation they stand for (log with dual base, powf/powc as powd, hypot, scale/unscale, abs-like on sign arms); argument/try_sqrt/copysign/min/max/clamp match simba's f64 reference on every sign case / weak ordering and return operands wholesale; SimdValue lane operations are part-wise with the same lane index (scalar types, vector types in all presence cases, and the container). abs-like items are decided by the sign BIT at a zero real part (|+0.0| is the operand, |-0.0| its negation, as f64::abs). Numeric agreement of forwarded methods is C01.",
       TB + "; name tables of DESIGN.md A.3/A.5 (cross-checked against simba 0.9.1)",
       "canonical-form evaluation of every trait item + reference-semantics comparison on the ordering lattice",
       "DESIGN.md 5.C11")
 
 claim("C05", "other",
-      "Abstract evaluation of all 20 public drivers with an opaque closure (element-uniform vectors, symbolic indices): what the closure receives is the input with the unit direction e_k seeded on element k (Kronecker delta on the loop counter / the i,j,k parameters, all 8 coincidence cases of i,j,k explored) in the declared shape and nothing else; loops that carry state are tested for element-uniformity; the returned tuple lists the result's parts in declared order, row-vector parts transposed, and for EVERY presence pattern of the closure's result an absent part comes back as zeros; jacobian[(i,j)] is part j of output i (rows written at the output's own index, not at a position after filtering) and partial_hessian is M x N; an Err from the closure is returned unchanged; infallible wrappers equal the try_ variants on Ok. Thorough tier adds a compile_fail,E0308 witness (with compiling twin) pinning the Jacobian / partial-Hessian orientation at the type level. The derivative values themselves are C03.",
+      "Abstract evaluation of all 20 public drivers with an opaque closure (element-uniform vectors, symbolic indices): what the closure receives is the input with the unit direction e_k seeded on element k (Kronecker delta on the loop counter / the i,j,k parameters, all 8 coincidence cases of i,j,k explored) in the declared shape and nothing else; loops that carry state are tested for element-uniformity; the returned tuple lists the result's parts in declared order, row-vector parts transposed, and for EVERY presence pattern of the closure's result an absent part comes back as zeros; jacobian[(i,j)] is part j of output i (rows written at the output's own index, not at a position after filtering) and partial_hessian is M x N; an Err from the closure is returned unchanged; infallible wrappers equal the try_ variants on Ok. The operations a differentiated closure is built from (optional-derivative container, + - * / in every operand form, absent parts) are the truncated-algebra operations (rule sets of C02/C07 reused). Thorough tier adds a compile_fail,E0308 witness (with compiling twin) pinning the Jacobian / partial-Hessian orientation at the type level. The derivative values themselves are C03.",
       "trusted: rustc type checker and name resolution, the exporter, the interpreter; loops over the inputs are element-uniform (one evaluation per symbolic index)",
       "abstract interpretation of typed HIR with an opaque closure + compile-fail witness",
       "DESIGN.md 5.C05")
@@ -85,7 +85,7 @@ claim("C16", "other",
       "structural rules on the type-checked derive expansion (typed HIR)",
       "DESIGN.md 5.C16")
 claim("C17", "other",
-      "Structural + canonical-form rules over the pyo3 wrapper layer (python configuration, 56 classes): 1736 named methods are exactly self.0.<mapped Rust item>(args in order).into(); 224 binary dunders compute self.0 OP r with their own operator and self on the left in every extract branch; 280 reflected operators / negations evaluate to the canonical form of lhs OP self; __pow__ tries i32->powi, f64->powf, Self->powd in order; constructors are positional; 55 length-dispatched driver arms use one length for the array, the SVector types and the class, call the try_ function of their own name with the driver's parameters in declaration order (closures hand their parameters to the Python callable in order) and convert matrices by rows; all 10 #[pyfunction]s and every constructible class are registered. The embedded interpreter and numpy object arrays at run time are NOT decided.",
+      "Structural + canonical-form rules over the pyo3 wrapper layer (python configuration, 56 classes): 1736 named methods are exactly self.0.<mapped Rust item>(args in order).into(); 224 binary dunders compute self.0 OP r with their own operator and self on the left in every extract branch; 280 reflected operators / negations evaluate to the canonical form of lhs OP self; __pow__ tries i32->powi, f64->powf, Self->powd in order; constructors are positional; 55 length-dispatched driver arms use one length for the array, the SVector types and the class, call the try_ function of their own name with the driver's parameters in declaration order (closures hand their parameters to the Python callable in order) and convert matrices by rows; all 10 #[pyfunction]s and every constructible class are registered. The length dispatch of each driver has one arm per size (no size twice, no hole) and a class named ..._<n> wraps the number type of dimension n. The embedded interpreter and numpy object arrays at run time are NOT decided.",
       "trusted: rustc expansion and type checker (pyo3 macro output as compiled), the exporter, structural walkers, name table A.6",
       "forwarding / who-calls-what rules on resolved callees of the typed HIR + canonical-form evaluation of reflected operators",
       "DESIGN.md 5.C17")
@@ -96,7 +96,7 @@ claim("C18", "other",
       "DESIGN.md 5.C18")
 
 claim("C10", "other",
-      "Abstract interpretation of the code as written (not of its canonical form) in a finiteness/sign domain with exact constants, the f64 range model (underflow to 0, overflow to inf) and an interval for the power exponent: at every enumerated special point (powi at 0 for n = 0,1,2 and integers >= 3; powf at 0 for n = 0,1,2, integers >= 3 and non-integers above the order of the type; atan2 on either axis away from the origin; sph_j0/1/2, exp_m1, ln_1p at 0, at the immediate neighbours +-2^-1074 and at +-2^-1022; bessel_j0/1/2 at 0) with arbitrary finite derivative parts, every part of the result is finite on every path for all 8 types and for the plain-float instances (no 0*inf, 0/0, inf-inf). Value clause: at these points the arm taken by bessel_j*/sph_j* is the Maclaurin polynomial of the function (exact coefficient comparison, adequate truncation) and both arms of atan2 carry the derivative parts of the two-argument arctangent (rule sets of C14/C15/C01 reused). Known findings: powf at 0 with a non-integer exponent in (order, 3).",
+      "Abstract interpretation of the code as written (not of its canonical form) in a finiteness/sign domain with exact constants, the f64 range model (underflow to 0, overflow to inf) and an interval for the power exponent: at every enumerated special point (powi at 0 for n = 0,1,2 and integers >= 3; powf at 0 for n = 0,1,2, integers >= 3 and non-integers above the order of the type; atan2 on either axis away from the origin; sph_j0/1/2, exp_m1, ln_1p at 0, at the immediate neighbours +-2^-1074 and at +-2^-1022; bessel_j0/1/2 at 0) with arbitrary finite derivative parts, every part of the result is finite on every path for all 8 types and for the plain-float instances (no 0*inf, 0/0, inf-inf). Value clause: at these points the arm taken by bessel_j*/sph_j* is the Maclaurin polynomial of the function (exact coefficient comparison, adequate truncation) and both arms of atan2 carry the derivative parts of the two-argument arctangent (rule sets of C14/C15/C01 reused). Every operator and iterator form (Sum/Product) is the truncated-algebra operation on every path, so no shortcut on a zero real part drops derivative parts. Known findings: powf at 0 with a non-integer exponent in (order, 3).",
       "trusted: rustc type checker and name resolution, the exporter, the interpreter, the transfer functions of ndvlib/domb.py; assumes finite*finite and finite+finite stay finite; Horner-at-zero summary for polevl/p1evl",
       "abstract interpretation with a finiteness/sign lattice (+ exponent intervals) over typed HIR",
       "DESIGN.md 5.C10")
@@ -106,12 +106,12 @@ claim("C12", "other",
       "tree-dominance and pairing rules on structured typed HIR",
       "DESIGN.md 5.C12")
 claim("C14", "other",
-      "NARROW claim: (1) parity — for each region (tiny, |x|<=5, |x|>5) the canonical real form computed for a negative argument, mirrored, equals +-the form for the positive argument (J0, J2 even, J1 odd; all guards decided by the real part); (2) interface purity — bessel.rs touches its operand only through DualNum/operator items, and those operations (+ - * / and the chain rule of all 8 types) are the truncated-algebra operations (rule sets of C02/C01 reused), hence derivative parts are those of the computed real function; (3) small-argument series — each polynomial arm equals the Maclaurin polynomial of J_n up to its own degree and is adequate for derivative orders 0..4 at the arm's threshold (exact rational bound vs 2^-50); (4) switch points agree between the three functions; the rational arm's Maclaurin expansion (tables evaluated exactly in a truncated-power-series domain) agrees with that of J_n to the accuracy of the tables; the asymptotic arm has the leading behaviour sqrt(2/(pi x)) cos(x - (2n+1)pi/4). NOT decided: accuracy of the rational approximations over the whole of |x|<=5 and of the asymptotic form beyond, continuity at |x|=5.",
+      "NARROW claim: (1) parity — for each region (tiny, |x|<=5, |x|>5) the canonical real form computed for a negative argument, mirrored, equals +-the form for the positive argument (J0, J2 even, J1 odd; all guards decided by the real part); (2) interface purity — bessel.rs touches its operand only through DualNum/operator items, and those operations (+ - * / and the chain rule of all 8 types) are the truncated-algebra operations (rule sets of C02/C01 reused), hence derivative parts are those of the computed real function; (3) small-argument series — each polynomial arm equals the Maclaurin polynomial of J_n up to its own degree and is adequate for derivative orders 0..4 at the arm's threshold (exact rational bound vs 2^-50); (4) switch points agree between the three functions; the rational arm's Maclaurin expansion (tables evaluated exactly in a truncated-power-series domain) agrees with that of J_n to the accuracy of the tables; the asymptotic arm has the leading behaviour sqrt(2/(pi x)) cos(x - (2n+1)pi/4). (5) the extracted approximants (rational arm for |x| <= 5, asymptotic arm beyond, coefficient tables read from the source) agree with J_n from its exact Maclaurin series at 18 grid points on both arms and both signs to 1e-16 in 60-digit arithmetic (the pinned tables reach 6e-18); every operator form including the dual-with-float forms is the truncated-algebra operation. NOT decided: accuracy of the approximants BETWEEN the grid points, continuity at |x|=5.",
       "trusted: rustc type checker and name resolution, the exporter, ndvlib/poly.py, Maclaurin tables computed in ndvlib/series.py",
       "real-function abstract interpretation per region + parity check by substitution + exact series bounds",
       "DESIGN.md 5.C14")
 claim("C15", "proof",
-      "Static proof over the reals for the dual impl (as instantiated for the 8 types) and both float impls: the closed-form arm is the definition of j0, j1, j2; the small-argument arm is the Maclaurin truncation and is adequate (exact rational bound <= 2^-50 for |x| < eps) for every derivative order the type carries, and up to total order 4 for nested types; the switch is symmetric in the sign of the argument, is the same condition in the dual impl and in both float instances (the machine epsilon of the instance's own float type), and both arms have the parity of the function; dual and float siblings agree arm by arm; in dual arithmetic both arms are the lifting of their real function (all parts, presence patterns). Rounding in the closed form near the switch is NOT decided.",
+      "Static proof over the reals for the dual impl (as instantiated for the 8 types) and both float impls: the closed-form arm is the definition of j0, j1, j2; the small-argument arm is the Maclaurin truncation and is adequate (exact rational bound <= 2^-50 for |x| < eps) for every derivative order the type carries, and up to total order 4 for nested types; the switch is symmetric in the sign of the argument, is the same condition in the dual impl and in both float instances (the machine epsilon of the instance's own float type), and both arms have the parity of the function; dual and float siblings agree arm by arm; in dual arithmetic both arms are the lifting of their real function (all parts, presence patterns). Every operator form both arms are built from (including the dual-with-float forms acting on the inner type) is the truncated-algebra operation. Rounding in the closed form near the switch is NOT decided.",
       TB + "; Maclaurin tables computed in ndvlib/series.py",
       "real-function and canonical-form abstract interpretation + exact Maclaurin comparison",
       "DESIGN.md 5.C15")
